@@ -282,7 +282,15 @@ def d2(cx: Cx, ob: Ob) -> None:
         ob.site(f"{where(handler, ev.line)} {handler.qualname}", f"expand_pair({show(a)[:50]}, {show(b)[:50]})")
         P, I = ("param", "prefix"), ("param", "identifier")
         resplit = False
-        if op(a) == "item" and op(b) == "item" and a[1] == b[1] and is_const(a[2], 0) and is_const(b[2], 1):
+        if op(a) == "item" and op(b) == "item" and a[1] == b[1] and is_const(a[2], 0) and is_const(b[2], 2) and op(a[1]) == "call" and callee_name(a[1]) == "partition" and op(a[1][1]) == "attr":
+            # (prefix + d + identifier).partition(d): head and tail of the first-occurrence split (d occurs: it was just inserted)
+            S = a[1]
+            if concat_parts(S[1][1]) == [P, ("attr", conv, "delimiter"), I] and S[2] == (("attr", conv, "delimiter"),) and not S[3]:
+                resplit = True
+            else:
+                ob.violate(handler.qualname, where(handler, ev.line), f"the {fw} handler re-splits `{show(S[1][1])[:50]}` at `{show(S[2][0])[:30] if S[2] else ''}`; expected prefix + converter.delimiter + identifier split at converter.delimiter", detail="resplit-shape")
+                continue
+        elif op(a) == "item" and op(b) == "item" and a[1] == b[1] and is_const(a[2], 0) and is_const(b[2], 1):
             S = a[1]
             if op(S) == "call" and S[1] == ("func", f"{API}._split") and S[2]:
                 joined = concat_parts(S[2][0])
